@@ -169,7 +169,12 @@ def eea_load(ctx: Ctx, chk) -> None:
     chk.rule(rule, "decoding a line raises nothing but marshmallow.ValidationError, and Gateway.listen converts that into InvalidMessageError")
     eea = ctx.eea()
     listen = ctx.func(LISTEN)
-    loads = [n for n in ctx.own_nodes(listen) if isinstance(n, ast.Call) and isinstance(n.func, ast.Attribute) and n.func.attr == "load"]
+    # the decode step may be extracted into a private helper of the gateway: analyse listen with it written out
+    from ..prov import Canon as _Canon
+
+    _li = ctx.inl(listen)
+    _cn = _Canon(ctx.I, _li, "")
+    loads = [n for n in ctx.own_nodes(_li) if isinstance(n, ast.Call) and _cn.canon(n.func).endswith("_schema.load")]
     if len(loads) != 1:
         raise AnalysisError(f"EEA-LOAD: expected one schema load in Gateway.listen, found {len(loads)}")
     call = loads[0]
